@@ -19,7 +19,6 @@ import subprocess
 import sys
 import time
 import traceback
-from concurrent.futures import ProcessPoolExecutor, as_completed
 
 VERIF_DIR = os.path.dirname(os.path.dirname(os.path.abspath(__file__)))
 OUT_DIR = os.environ.get("VERIF_OUT", VERIF_DIR)     # evidence/ and replays/ go here (mutant self-test redirects it)
@@ -175,6 +174,7 @@ def match_known(pid, violation, findings):
 # worker side
 # --------------------------------------------------------------------------
 _WORLD = None
+_CUR_FILE = None
 
 
 def _load_world(modname):
@@ -283,7 +283,18 @@ def _chunk_job(args):
         plan["seed"] = seed
         plan["index"] = idx
         plan["tier"] = tier
-        res = execute_guarded(world, plan, opts.get("plan_timeout"))
+        if _CUR_FILE:
+            try:
+                with open(_CUR_FILE, "w") as fcur:
+                    json.dump(plan, fcur)
+            except Exception:       # noqa: BLE001
+                pass
+        lim_ = float(opts.get("plan_timeout") or os.environ.get("VERIF_PLAN_TIMEOUT", "120"))
+        faulthandler.dump_traceback_later(lim_ + 30, exit=True)     # last resort when the code is stuck inside C and no signal handler can run
+        try:
+            res = execute_guarded(world, plan, opts.get("plan_timeout"))
+        finally:
+            faulthandler.cancel_dump_traceback_later()
         agg["evaluations"] += int(res.get("evaluations", 1))
         agg["steps"] += res.get("steps", 0)
         agg["sim_time"] += res.get("sim_time", 0.0)
@@ -308,6 +319,128 @@ def _chunk_job(args):
         if len(agg["samples"]) < 2 and res.get("nontrivial") and res["status"] == "ok":
             agg["samples"].append(plan)
     return agg
+
+
+# --------------------------------------------------------------------------
+# process pool: plain fork, static round-robin assignment of chunks, one result
+# file per worker.  No shared queues or locks (a ProcessPoolExecutor was seen to
+# dead-lock once, parent and idle workers all waiting on one semaphore).
+# --------------------------------------------------------------------------
+def _merge_aggs(a, b):
+    for k in ("evaluations", "steps", "sim_time", "nontrivial", "gen_fail", "digests_all"):
+        a[k] = a.get(k, 0) + b.get(k, 0)
+    for k in ("faults", "probes", "states"):
+        for kk, vv in b[k].items():
+            bump(a[k], kk, vv)
+    a["digests_nt"] |= b["digests_nt"]
+    if len(a["samples"]) < 2:
+        a["samples"].extend(b["samples"][: 2 - len(a["samples"])])
+    a["bad"].extend(b["bad"][: max(0, 60 - len(a["bad"]))] if len(a["bad"]) < 60 else [dict(x, plan=None) for x in b["bad"]])
+    a["harness"].extend(b["harness"][: max(0, 5 - len(a["harness"]))])
+    return a
+
+
+def run_forked(jobs, workers, hard_timeout):
+    """Returns (list of per-worker aggregates, error text or None)."""
+    import pickle
+    import shutil
+    import signal
+    import tempfile
+    workers = max(1, min(workers, len(jobs)))
+    d = tempfile.mkdtemp(prefix="verif-pool-%d-" % os.getpid(), dir="/dev/shm" if os.path.isdir("/dev/shm") else None)
+    pids = {}
+    sys.stdout.flush()
+    sys.stderr.flush()
+    try:
+        for w in range(workers):
+            pid = os.fork()
+            if pid == 0:
+                code = 1
+                try:
+                    try:        # a torn pickle can ask for absurd allocations: fail fast instead of swapping
+                        import resource
+                        lim = 8 * 1024 ** 3
+                        soft, hard = resource.getrlimit(resource.RLIMIT_AS)
+                        if soft == resource.RLIM_INFINITY or soft > lim:
+                            resource.setrlimit(resource.RLIMIT_AS, (lim, hard))
+                    except Exception:       # noqa: BLE001
+                        pass
+                    global _CUR_FILE
+                    _CUR_FILE = os.path.join(d, "w%d.cur" % w)
+                    agg = None
+                    for j in jobs[w::workers]:
+                        r = _chunk_job(j)
+                        agg = r if agg is None else _merge_aggs(agg, r)
+                    tmp = os.path.join(d, "w%d.tmp" % w)
+                    with open(tmp, "wb") as f:
+                        pickle.dump(agg, f)
+                    os.replace(tmp, os.path.join(d, "w%d.pkl" % w))
+                    code = 0
+                except BaseException:      # noqa: B902
+                    try:
+                        traceback.print_exc()
+                    except Exception:       # noqa: BLE001
+                        pass
+                finally:
+                    try:
+                        sys.stdout.flush()
+                        sys.stderr.flush()
+                    finally:
+                        os._exit(code)
+            pids[pid] = w
+        deadline = time.time() + hard_timeout
+        err = None
+        left = dict(pids)
+        while left and time.time() < deadline:
+            try:
+                pid, status = os.waitpid(-1, os.WNOHANG)
+            except ChildProcessError:
+                break
+            if pid == 0:
+                time.sleep(0.05)
+                continue
+            if pid in left:
+                w = left.pop(pid)
+                if status != 0 and err is None:
+                    err = "worker %d ended with status %d" % (w, status)
+                    cur = os.path.join(d, "w%d.cur" % w)
+                    if os.path.exists(cur):
+                        keep = os.path.join(OUT_DIR, "replays", "stuck_plan_%d.json" % os.getpid())
+                        os.makedirs(os.path.dirname(keep), exist_ok=True)
+                        shutil.copy(cur, keep)
+                        err += " while executing the plan saved as %s" % keep
+        if left:
+            err = err or "%d worker(s) still running after %.0f s; killed" % (len(left), hard_timeout)
+            for pid, w in left.items():
+                cur = os.path.join(d, "w%d.cur" % w)
+                if os.path.exists(cur):
+                    keep = os.path.join(OUT_DIR, "replays", "stuck_plan_%d_w%d.json" % (os.getpid(), w))
+                    os.makedirs(os.path.dirname(keep), exist_ok=True)
+                    shutil.copy(cur, keep)
+                    err += "; worker %d was executing the plan saved as %s" % (w, keep)
+            for pid in left:
+                try:
+                    os.kill(pid, signal.SIGKILL)
+                except OSError:
+                    pass
+            for pid in left:
+                try:
+                    os.waitpid(pid, 0)
+                except OSError:
+                    pass
+        aggs = []
+        for w in range(workers):
+            f = os.path.join(d, "w%d.pkl" % w)
+            if os.path.exists(f):
+                with open(f, "rb") as fh:
+                    a = pickle.load(fh)
+                if a is not None:
+                    aggs.append(a)
+            elif err is None:
+                err = "worker %d left no result" % w
+        return aggs, err
+    finally:
+        shutil.rmtree(d, ignore_errors=True)
 
 
 # --------------------------------------------------------------------------
@@ -441,7 +574,6 @@ def run_batch(modname, pid, tier, master, stages, workers, level="exploration",
         world.warm_up()
     total = {"evaluations": 0, "faults": {}, "probes": {}, "states": {}, "digests_nt": set(),
              "steps": 0, "sim_time": 0.0, "samples": [], "bad": [], "harness": [], "nontrivial": 0, "gen_fail": 0}
-    ctx = multiprocessing.get_context("fork")
     pool_broken = None
     n_plans = 0
     stage_report = []
@@ -456,34 +588,27 @@ def run_batch(modname, pid, tier, master, stages, workers, level="exploration",
             jobs.append((modname, pid, tier, master, list(range(base + start, base + min(st["n"], start + chunk))), deadline, opts))
         n_plans += st["n"]
         hard_timeout = st["wall"] + max(240, float(opts.get("plan_timeout", 0)) + 60)
-        faulthandler.dump_traceback_later(hard_timeout + 60, exit=True)
+        # (no faulthandler watchdog in the parent: its thread state would be inherited, dead, by the forked workers;
+        #  run_forked enforces the hard deadline itself and kills stragglers)
         ev_before = total["evaluations"]
-        with ProcessPoolExecutor(max_workers=workers, mp_context=ctx) as ex:
-            futs = [ex.submit(_chunk_job, j) for j in jobs]
-            try:
-                for fu in as_completed(futs, timeout=hard_timeout):
-                    agg = fu.result()
-                    total["evaluations"] += agg["evaluations"]
-                    total["steps"] += agg["steps"]
-                    total["sim_time"] += agg["sim_time"]
-                    total["nontrivial"] += agg["nontrivial"]
-                    total["gen_fail"] += agg["gen_fail"]
-                    for k, v in agg["faults"].items():
-                        bump(total["faults"], k, v)
-                    for k, v in agg["probes"].items():
-                        bump(total["probes"], k, v)
-                    for k, v in agg["states"].items():
-                        bump(total["states"], k, v)
-                    total["digests_nt"] |= agg["digests_nt"]
-                    if len(total["samples"]) < 2 * (si + 1):
-                        total["samples"].extend(agg["samples"][:1])
-                    total["bad"].extend(agg["bad"])
-                    total["harness"].extend(agg["harness"])
-            except Exception as e:           # dead worker, timeout: never exit 0
-                pool_broken = "%s: %s" % (type(e).__name__, e)
-                for fu in futs:
-                    fu.cancel()
-        faulthandler.cancel_dump_traceback_later()
+        aggs, pool_broken = run_forked(jobs, workers, hard_timeout)
+        for agg in aggs:
+            total["evaluations"] += agg["evaluations"]
+            total["steps"] += agg["steps"]
+            total["sim_time"] += agg["sim_time"]
+            total["nontrivial"] += agg["nontrivial"]
+            total["gen_fail"] += agg["gen_fail"]
+            for k, v in agg["faults"].items():
+                bump(total["faults"], k, v)
+            for k, v in agg["probes"].items():
+                bump(total["probes"], k, v)
+            for k, v in agg["states"].items():
+                bump(total["states"], k, v)
+            total["digests_nt"] |= agg["digests_nt"]
+            if len(total["samples"]) < 2 * (si + 1):
+                total["samples"].extend(agg["samples"][:1])
+            total["bad"].extend(agg["bad"])
+            total["harness"].extend(agg["harness"])
         stage_report.append({"stage": st.get("name", str(si)), "plans_requested": st["n"],
                              "executions": total["evaluations"] - ev_before, "wall_s": round(time.time() - ts, 2)})
         if pool_broken:
